@@ -240,6 +240,11 @@ def adds_listed_unit(o, listed, before_kids):
                 n = o[2] if o[2] >= 0 else o[2] + len(cur)
                 if 0 <= n < len(cur) and cur[n] == u and listed[u] == [o[1]]:
                     continue
+            if k == 'setslice':
+                # a unit of the replaced window itself may stay (the window is filtered, reordered or re-assigned)
+                cur = before_kids.get(o[1], [])
+                if u in cur[slice(o[2], o[3])] and listed[u] == [o[1]]:
+                    continue
             return True
     return False
 
@@ -311,6 +316,13 @@ def gen_history(rng, n_ops, inadmissible_rate):
         elif r < 0.50:
             a, b = rng.choice([None, idx()]), rng.choice([None, idx()])
             us = list(dict.fromkeys(pick_add(q) for _ in range(rng.randint(0, 3))))
+            if rng.random() < 0.4:
+                # a window filtered / reordered / re-assigned in place: units of the replaced window stay (seq.subunits[:] = [u for u in ... if ...])
+                window = list(kids[q][a:b])
+                keep = [u for u in window if rng.random() < 0.6]
+                if rng.random() < 0.3:
+                    rng.shuffle(keep)
+                us = list(dict.fromkeys(keep + (us[:1] if rng.random() < 0.3 else [])))
             ops.append(('setslice', q, a, b, us)); kids[q][a:b] = us
         elif r < 0.58:
             i = idx(); ops.append((rng.choice(['delitem', 'drop']), q, i))
